@@ -1,12 +1,13 @@
 //! C11 — Nearest picks the source pixel under each destination centre.
 
 use crate::img::{self, Buf, Comp, Placement};
+use crate::layout::{self, LKind, Layout, SrcOp};
 use crate::model;
 use crate::outcome::*;
 use crate::runner::catch;
 use crate::spec::{crop_class_name, AlgSpec, Profile, ResizeSpec};
 use crate::tape::{fnv, Tape};
-use fast_image_resize::images::{Image, ImageRef};
+use fast_image_resize::images::Image;
 
 pub static PROP: PropDef = PropDef {
     id: "C11",
@@ -31,6 +32,7 @@ fn profile() -> Profile {
     let mut p = Profile::standard();
     p.size_weights = [30, 90, 90, 30, 16];
     p.crop_weights = [60, 196];
+    p.huge_max = 131_075;
     p
 }
 
@@ -42,12 +44,20 @@ fn check(tape: &[u8], _ctx: &Ctx) -> Outcome {
     if tagged {
         spec.pt = fast_image_resize::PixelType::I32;
     }
-    let spare_rows = if t.chance(80) { t.range(1, 3) } else { 0 };
+    let spare_rows = 0u32;
+    // the source through different containers: the generic row-step iterator (typed / cropped views) and the
+    // specialised one of plain image references must select the same rows
+    let slay = Layout::decode(
+        &mut t,
+        spec.sw,
+        spec.sh,
+        &[LKind::Plain, LKind::Oversized, LKind::Cropped, LKind::Nested, LKind::CroppedMutAsSrc, LKind::Owned],
+    );
     let guard = t.chance(90);
     let mut o = Outcome::new(format!(
         "{}{}: {}",
         if tagged { "identity-tagged " } else { "" },
-        if spare_rows > 0 { format!("(+{} spare source rows)", spare_rows) } else { String::new() },
+        format!("(source {})", slay.desc()),
         spec.desc()
     ));
     let c = img::comp(spec.pt);
@@ -56,7 +66,7 @@ fn check(tape: &[u8], _ctx: &Ctx) -> Outcome {
     let npx = spec.sw as usize * spec.sh as usize;
     let spare = spare_rows as usize * spec.sw as usize;
     let placement = if guard { Placement::GuardEnd } else { Placement::Heap };
-    let mut src = Buf::placed((npx + spare) * ps, placement);
+    let mut src = Buf::new((npx + spare) * ps);
     if tagged {
         for i in 0..npx + spare {
             img::set_comp(c, src.bytes_mut(), i, i as f64);
@@ -68,11 +78,25 @@ fn check(tape: &[u8], _ctx: &Ctx) -> Outcome {
     let mut dst = Buf::placed(len, placement);
     dst.fill(0xA5);
     let opts = spec.options();
+    struct Run<'a> {
+        spec: &'a ResizeSpec,
+        opts: &'a fast_image_resize::ResizeOptions,
+        dst: &'a mut [u8],
+    }
+    impl<'a> SrcOp for Run<'a> {
+        type Out = Result<(), String>;
+        fn run<S: fast_image_resize::IntoImageView + Sync>(self, s: &S) -> Self::Out {
+            let mut r = img::new_resizer(self.spec.ext);
+            let mut d = Image::from_slice_u8(self.spec.dw, self.spec.dh, self.dst, self.spec.pt).map_err(|e| format!("{:?}", e))?;
+            r.resize(s, &mut d, self.opts).map_err(|e| format!("{:?}", e))
+        }
+    }
+    let sparent = slay.place(ps, src.bytes(), |i| (i * 13 % 251) as u8, placement);
     let res = catch(|| {
-        let mut r = img::new_resizer(spec.ext);
-        let s = ImageRef::new(spec.sw, spec.sh, src.bytes(), spec.pt).map_err(|e| format!("{:?}", e))?;
-        let mut d = Image::from_slice_u8(spec.dw, spec.dh, dst.bytes_mut(), spec.pt).map_err(|e| format!("{:?}", e))?;
-        r.resize(&s, &mut d, &opts).map_err(|e| format!("{:?}", e))
+        match layout::with_src_dyn(&slay, spec.pt, sparent.bytes(), Run { spec: &spec, opts: &opts, dst: dst.bytes_mut() }) {
+            Ok(r) => r,
+            Err(e) => Err(format!("source container rejected: {}", e)),
+        }
     });
     match res {
         Err(p) => {
